@@ -707,10 +707,26 @@ func ruleNoPartial(w *World, r *Report, fn string) {
 			}
 		}
 		_, isCall := v.(*ssa.Call)
+		if tc := throughCall(v, 0); !ok && tc != nil {
+			// return fail(err): what the helper returns at this position
+			ok, isCall = true, true
+			for _, u := range tc {
+				if !zero(u) {
+					ok = false
+				}
+			}
+		}
+		// a named result kept in a variable because a deferred function may still change it
+		// (defer func() { if err != nil { result = nil } }()): its final value is not followed
+		if ld, isLoad := v.(*ssa.UnOp); isLoad && !ok {
+			if _, isVar := ld.X.(*ssa.Alloc); isVar {
+				isCall = true
+			}
+		}
 		if ok {
 			r.add("NOPARTIAL", key, w.Pos(ret.Pos()), Discharged, "failure return carries "+describeValue(ret.Results[0]))
 		} else if isCall {
-			r.add("NOPARTIAL", key, w.Pos(ret.Pos()), Undecided, "failure return carries the result of a call ("+describeValue(ret.Results[0])+"), which may be the empty value")
+			r.add("NOPARTIAL", key, w.Pos(ret.Pos()), Undecided, "failure return carries the result of a call or a result variable that a deferred function may reset ("+describeValue(ret.Results[0])+"), which may be the empty value")
 		} else {
 			r.add("NOPARTIAL", key, w.Pos(ret.Pos()), Violated, "failure return carries a computed value ("+describeValue(ret.Results[0])+")")
 		}
